@@ -38,6 +38,9 @@ var grammarLines = []string{
 	"_$domain=example.org", "-$domain=b.c", "^$ctag=a", "/*$client=1.1.1.1", "~$dnstype=A", "%$denyallow=x.com",
 	"! " + "----------------------------------------------------------------" + "||example.org^",
 	"||example.org^$domain=example.*", "||example.org^$domain=*.example.org", "example.*##.x",
+	"||example.org^$dnsrewrite=NOERROR;SRV;30 60 8080", "||example.org^$dnsrewrite=NOERROR;SRV;30 60", "||example.org^$dnsrewrite=NOERROR;SRV;1 2 3 a.b extra",
+	"||example.org^$dnsrewrite=NOERROR;MX;10", "||example.org^$dnsrewrite=NOERROR;MX;", "||example.org^$dnsrewrite=NOERROR;SVCB;1", "||example.org^$dnsrewrite=NOERROR;HTTPS;1 .",
+	"||example.org^$dnsrewrite=NOERROR;HTTPS;1 . alpn", "||example.org^$dnsrewrite=NOERROR;PTR;", "||example.org^$dnsrewrite=NOERROR;A;", "||example.org^$dnsrewrite=;;;",
 	"*$domain=co.*,script", "||example.org^$denyallow=edu.*", "co.*##.y", "edu.*,~act.edu.*##.z", "/x$domain=uk.*|co.*", "[Adblock Plus 2.0]", "||пример.рф^", "xn--e1afmkfd.xn--p1ai", "||example.org^$popup",
 }
 
@@ -62,15 +65,28 @@ func observeParse(line string, id int) lineEvent {
 	return e
 }
 
-func driveRequests(rnd *rand.Rand) []*rules.Request {
-	var out []*rules.Request
+func driveRequests(rnd *rand.Rand) (out []*rules.Request, panics []string) {
+	// every request is built under a recover: a constructor that panics is an event of its own
+	build := func(u, src string, t rules.RequestType) {
+		var q *rules.Request
+		if pv := safeCall(func() { q = rules.NewRequest(u, src, t) }); pv != "" {
+			panics = append(panics, fmt.Sprintf("NewRequest(url of %d bytes, source of %d bytes): %s", len(u), len(src), pv))
+			return
+		}
+		out = append(out, q)
+	}
+	long := strings.Repeat("http://a/", 600)
+	for _, pr := range [][2]string{{"http://example.org/x", long}, {long, "http://example.org/"}, {long, long + "x"}, {"http://b/" + long, long},
+		{"http://example.org/\u212a\u0130\u212b/x", ""}, {"http://example.org/?q=\u212a", "http://\u0130.example/"}, {"HTTP://EXAMPLE.ORG/\u00c4\u1e9e", ""}} {
+		build(pr[0], pr[1], rules.TypeScript)
+	}
 	urls := []string{"http://co.uk/", "https://act.edu.au/x", "http://example.org/", "https://sub.example.org/ads/banner1.js?x=1", "http://localhost/", "https://example.com/a/b", "ws://x/", "", "http://", "://", "http://[::1]:8080/x", "stun:example.org", strings.Repeat("http://a/", 600)}
 	for _, u := range urls {
-		out = append(out, rules.NewRequest(u, urls[rnd.Intn(len(urls))], rules.RequestType(1<<uint(rnd.Intn(12)))))
+		build(u, urls[rnd.Intn(len(urls))], rules.RequestType(1<<uint(rnd.Intn(12))))
 	}
 	// requests that satisfy the restricting modifiers short patterns need, so that their pattern is really evaluated
 	for _, src := range []string{"http://example.org/", "http://b.c/", "https://sub.example.org/x"} {
-		out = append(out, rules.NewRequest("http://example.org/_-^~%/a*b", src, rules.TypeScript))
+		build("http://example.org/_-^~%/a*b", src, rules.TypeScript)
 	}
 	for _, h := range []string{"example.org", "a_b-c.example.org"} {
 		q := rules.NewRequestForHostname(h)
@@ -87,7 +103,7 @@ func driveRequests(rnd *rand.Rand) []*rules.Request {
 		q.DNSType = 1
 		out = append(out, q)
 	}
-	return out
+	return out, panics
 }
 
 // vh drive-lines n=<lines> out=<trace.ndjson>
@@ -101,8 +117,12 @@ func cmdDriveLines(args []string) error {
 	defer out.close()
 	rnd := rand.New(rand.NewSource(seed()*977 + 11))
 	listLines := listRuleLines(repoDir())
-	reqs := driveRequests(rnd)
+	reqs, reqPanics := driveRequests(rnd)
 	counts := map[string]int{}
+	for _, rp := range reqPanics {
+		counts["request-panic"]++
+		out.write(lineEvent{Ev: "request", Outcome: "panic", Detail: rp, Line: []int{}, Trimmed: []int{}, Text: []int{}})
+	}
 	var batch []string
 	var samples []string
 	flush := func() {
